@@ -40,6 +40,8 @@ pub mod udp_client;
 pub mod uniudp_fleet;
 #[cfg(all(feature = "value-stream", not(target_arch = "wasm32")))]
 pub mod value_stream;
+#[cfg(feature = "verif-hooks")]
+pub mod verif_hooks;
 #[cfg(all(feature = "websocket-wasm", target_arch = "wasm32"))]
 pub mod wasm_client;
 #[cfg(all(feature = "websocket", not(target_arch = "wasm32")))]
